@@ -37,7 +37,7 @@ def validate(ctx, name, d, summ, stats, samples, expect_clean=True, script=None)
         return
     seen_sig = {}
     for f, consumed, mism, res in P.validate_parts(ctx, "ZPlaceTrace", "ZPlaceTrace.cfg", files, name,
-                                                   n=8 if ctx.quick() else 12):
+                                                   n=8 if ctx.quick() else 12, heap="1500m"):
         if not consumed and not mism:
             if res.timed_out:
                 ctx.log("TLC timed out on %s; skipped" % f)
@@ -53,7 +53,8 @@ def validate(ctx, name, d, summ, stats, samples, expect_clean=True, script=None)
             key = (e["n"], tuple(e["dc"]))
             stats["topo"].add(key)
             if e["res"] == "ok":
-                stats["layouts"].add((key, e["algo"], e["P"], e["R"], tuple(e["live"]), json.dumps(e["out"])))
+                # (hashed: the thorough tier sees millions of calls)
+                stats["layouts"].add(hash((key, e["algo"], e["P"], e["R"], tuple(e["live"]), json.dumps(e["out"]))))
         if len(samples) < 2:
             big = [e for e in calls if e["res"] == "ok" and len(e["live"]) >= 3 and e["R"] >= 2 and e["P"] >= 3]
             if big:
@@ -79,22 +80,14 @@ def validate(ctx, name, d, summ, stats, samples, expect_clean=True, script=None)
     stats["runs"].append(summ)
 
 
-def selftest(ctx, good_file, stats):
+# one good call recorded from the unchanged tree (v1, 3 nodes in 3 data centres, P=3, R=2); the
+# self-test corrupts copies of it, so it does not depend on the tree under test
+FIXTURE = [{"ev": "reset", "seg": 1, "info": "fixture"}, {"P": 3, "R": 2, "algo": "v1", "dc": [1, 2, 3], "ev": "place", "live": [1, 2, 3], "msg": "", "n": 3, "ns": "ns0", "old": [], "out": [[3, 1], [1, 2], [2, 3]], "out2": [[3, 1], [1, 2], [2, 3]], "outp": [[3, 1], [1, 2], [2, 3]], "res": "ok", "res2": "ok", "resp": "ok"}]
+
+
+def selftest(ctx, stats):
     """Binding self-test: corrupt single fields of a good trace; TLC must name the clause."""
-    ev = V.read_ndjson(good_file)
-    pick = None
-    for i, e in enumerate(ev):
-        if (e.get("ev") == "place" and e["res"] == "ok" and e["algo"] == "v1" and e["R"] >= 2 and
-                len(e["live"]) >= 3 and e["P"] % len(e["live"]) == 0 and e["P"] >= 3):
-            pick = i
-            break
-    if pick is None:
-        ctx.notes.append("self-test: no suitable line found")
-        return
-    seg_start = pick
-    while ev[seg_start].get("ev") != "reset":
-        seg_start -= 1
-    base = ev[seg_start:pick + 1]
+    base = json.loads(json.dumps(FIXTURE))
 
     def variant(fn):
         seg = json.loads(json.dumps(base))
@@ -148,10 +141,14 @@ def run(ctx):
     zr = P.harness(ctx, ["placesim.go"])
     # ---- (A) the contract is satisfiable and its premises are not vacuous
     cfgs = ["MC_ZPlace.cfg", "MC_ZPlace_vac1.cfg", "MC_ZPlace_vac2.cfg", "MC_ZPlace_vac3.cfg", "MC_ZPlace_vac4.cfg"]
-    mres = V.parallel(lambda c: V.tlc(ctx, "MC_ZPlace", c, workers=2, timeout=600), cfgs, n=5)
+    if not ctx.quick():
+        cfgs.append("MC_ZPlace_3dc.cfg")       # three data centres x two nodes, R in {2,3}
+    mres = V.parallel(lambda c: V.tlc(ctx, "MC_ZPlace", c, workers=2, timeout=900, heap="1g"), cfgs, n=6)
     V.require_model_ok(ctx, mres[0], "MC_ZPlace")
+    if not ctx.quick():
+        V.require_model_ok(ctx, mres[5], "MC_ZPlace_3dc")
     vac = {}
-    for c, r in zip(cfgs[1:], mres[1:]):
+    for c, r in zip(cfgs[1:5], mres[1:5]):
         vac[c] = r.violated
         if r.timed_out:
             ctx.skipped += 1
@@ -167,17 +164,17 @@ def run(ctx):
     # ---- (B) enumeration of small topologies on the real functions
     if quick:
         names = [NS_NAMES[ctx.seed % len(NS_NAMES)]]
-        shards, maxn, hist, histn = 4, 5, 3, 0
+        shards, maxn, hist, histn = 4, 5, 3, 4
     else:
-        names = NS_NAMES[:3]
-        shards, maxn, hist, histn = 12, 6, 3, 0
+        names = NS_NAMES[:3]          # fresh layouts under three ring rotations, history trees under the first
+        shards, maxn, hist, histn = 12, 6, 3, 5
     jobs = []
     for s in range(shards):
         jobs.append(("enum-s%d" % s, ["-mode", "enum", "-maxn", str(maxn), "-maxdc", "3", "-maxp", "8", "-maxr", "3",
-                                      "-hist", str(hist), "-histn", str(histn), "-ns", ",".join(names),
+                                      "-hist", str(hist), "-histn", str(histn), "-multi", "2", "-histns", "1", "-ns", ",".join(names),
                                       "-seed", seed, "-shard", str(s), "-shards", str(shards),
                                       "-parts", "2" if quick else "10"]))
-    nrand = 500 if quick else 10000
+    nrand = 500 if quick else 6000
     rshards = 2 if quick else 8
     for s in range(rshards):
         jobs.append(("rand-s%d" % s, ["-mode", "rand", "-n", str(nrand // rshards), "-seed", str(ctx.seed * 1000 + s),
@@ -187,19 +184,15 @@ def run(ctx):
     jobs.append(("long-old-lists", ["-mode", "isolate", "-maxn", "4" if quick else "5", "-maxdc", "3", "-maxr", "3",
                              "-ns", names[0], "-seed", seed, "-parts", "1" if quick else "4"]))
     driven = V.parallel(lambda j: (j,) + P.drive(ctx, zr, "placesim", j[0], j[1]), jobs, n=8 if quick else 12)
-    good = None
     for (name, args), d, summ in driven:
         if summ is None:
             ctx.skipped += 1
             continue
         validate(ctx, name, d, summ, stats, samples, script={"placesim": args})
-        if good is None and name.startswith("enum"):
-            fs = P.part_files(d)
-            good = fs[0] if fs else None
     if stats["calls"] == 0:
         raise V.Inconclusive("no placement call could be validated")
-    if good and (not quick or ctx.seed % 4 == 1):
-        selftest(ctx, good, stats)
+    if not quick or ctx.seed % 4 == 1:
+        selftest(ctx, stats)
 
     tot = lambda k: sum(r.get(k, 0) for r in stats["runs"])
     by_res = {}
@@ -226,6 +219,7 @@ def run(ctx):
         max_nodes=max([r.get("max_nodes", 0) for r in stats["runs"]] or [0]),
         max_partitions=max([r.get("max_partitions", 0) for r in stats["runs"]] or [0]),
         enumeration=dict(max_nodes=maxn, max_dcs=3, max_partitions=8, max_replicas=3, history_depth=hist,
+                         history_depth_reduced_by_one_above_nodes=histn, max_history_with_multi_node_event=2,
                          namespaces=names, seeded_topologies=nrand),
         contract_violations=stats["mismatches"], violation_signatures=stats["mismatch_signatures"],
         selftest=stats.get("selftest"),
@@ -239,8 +233,10 @@ def run(ctx):
         "layout is the last layout the function itself produced; previous layouts with replica lists longer "
         "than R (factor lowered by one, one partition extended to R+1) are exercised by stage long-old-lists "
         "with single node losses only",
-        "complete enumeration only up to %d nodes / 3 data centres / 8 partitions / R<=3 / history depth %d; "
-        "above that seeded sampling up to 40 nodes / 4 DCs / 64 partitions / R<=5" % (maxn, hist),
+        "complete enumeration only up to %d nodes / 3 data centres / 8 partitions / R<=3 / histories of <= %d "
+        "single-node events (one less above %d nodes when that is not 0), or <= 2 events when one of them changes "
+        "several nodes at once (a pair of nodes, a whole data centre); above that seeded sampling up to 40 nodes "
+        "/ 4 DCs / 64 partitions / R<=5 with random walks" % (maxn, hist, histn),
         "the contract part (A) is only satisfiability and non-vacuity; the guarantees about the real algorithms "
         "rest on the evaluated calls",
     ])
